@@ -379,6 +379,8 @@ type Q struct {
 	CName    string   `json:"cname,omitempty"`
 	CIP      string   `json:"cip,omitempty"`
 	Tags     []string `json:"tags,omitempty"`
+	// CosmeticOpt: (host-name queries in histories) the option bits for the cosmetic query, 0 = all
+	CosmeticOpt int `json:"cosmetic_opt,omitempty"`
 }
 
 func mkReq(q Q) *rules.Request {
